@@ -112,7 +112,7 @@ def cases(shard, tier):
                 seconds += ['window', 'data', 'dtype']
             for second in seconds:
                 yield dict(shard, n=n, frm=f, to=t, user=user, itype=it, second=second)
-            if it is not None and user == 'none' and shard['dtype'].startswith('float') and n >= 3 and (f, t) == (0, None):
+            if it is not None and user == 'none' and shard['dtype'].startswith('float') and n >= 2 and (f, t) == (0, None):
                 # a NaN among the index values written: the index is not monotonic, so no DIRECTION and no SPACING may be
                 # claimed (nothing is demanded of INDEX-MIN / INDEX-MAX)
                 for pos in sorted({0, n // 2, n - 1}):
